@@ -25,6 +25,18 @@ Theorem C11_lift_inverse : forall t L D taps S A, Nat.even (length A) = true ->
   analysis_lift t L D taps S (synthesis_lift t L D taps S A) = A.
 Proof. exact lift_inverse. Qed.
 
+(* the loops never index outside the array (Python would raise IndexError; the model's [nth]
+   defaults are never used): whenever an iteration n < len(A)//2 runs, the written position and
+   every clamped tap position lie in 0..len(A)-1 *)
+Theorem C11_lift_indices_in_range : forall (odd : bool) (A : list Z) (n : nat) (i : Z),
+  (n < Nat.div2 (length A))%nat ->
+  ((if odd then 2 * n + 1 else 2 * n) < length A)%nat /\
+  0 <= tap_pos odd (Z.of_nat (length A)) (Z.of_nat n) i < Z.of_nat (length A).
+Proof.
+  exact (fun odd A n i H => conj (proj1 (write_pos_in_range odd A n H))
+                              (tap_pos_in_range odd _ _ i (proj2 (write_pos_in_range odd A n H)))).
+Qed.
+
 (* every stage list (every filter of any table): oned_synthesis undoes oned_analysis *)
 Theorem C11_oned_roundtrip : forall stages A, Nat.even (length A) = true ->
   oned_synthesis stages (oned_analysis stages A) = A.
